@@ -206,3 +206,11 @@ func VerifBuffered(w io.Writer) int {
 	}
 	return -1
 }
+
+// VerifParseFrame exposes parseFrame (header = true: BEGIN marker, else END).
+func VerifParseFrame(m string, typ MessageType, header bool) (string, error) {
+	if header {
+		return parseFrame(m, typ, headerMarker)
+	}
+	return parseFrame(m, typ, footerMarker)
+}
